@@ -24,13 +24,14 @@ import (
 // C08: every client call ends when its connection or context ends; nothing leaks.
 
 type C08Case struct {
-	Client  string `json:"client"`  // streamable-json streamable-sse legacy stdio
-	Fault   string `json:"fault"`   // none refuse close reset truncate stall exit0 exit3 kill9 http404 http500 http503 (the hit call is answered with that status and a body) noendpoint (legacy: the stream never announces its endpoint)
-	CutPct  int    `json:"cutpct"`  // where inside the response the fault lands: 0..100 (% of its bytes); -1 = before any byte (transport level)
-	Pending int    `json:"pending"` // calls pending when the fault lands
-	Ctx     string `json:"ctx"`     // none cancel deadline
-	Retry   bool   `json:"retry,omitempty"` // HTTP clients: created WithRetry (30 s backoff): the pending call is between two attempts when its context ends
-	Target  string `json:"target"`  // which exchange is hit: call (a tools/call answer) or stream (the legacy event stream / streamable listening stream itself)
+	Client  string `json:"client"`           // streamable-json streamable-sse legacy stdio
+	Fault   string `json:"fault"`            // none refuse close reset truncate stall exit0 exit3 kill9 http404 http500 http503 (the hit call is answered with that status and a body) noendpoint (legacy: the stream never announces its endpoint)
+	CutPct  int    `json:"cutpct"`           // where inside the response the fault lands: 0..100 (% of its bytes); -1 = before any byte (transport level)
+	Pending int    `json:"pending"`          // calls pending when the fault lands
+	Ctx     string `json:"ctx"`              // none cancel deadline
+	Helper  bool   `json:"helper,omitempty"` // stdio: the server process has a helper of its own that inherits its stdout / stderr and outlives it
+	Retry   bool   `json:"retry,omitempty"`  // HTTP clients: created WithRetry (30 s backoff): the pending call is between two attempts when its context ends
+	Target  string `json:"target"`           // which exchange is hit: call (a tools/call answer) or stream (the legacy event stream / streamable listening stream itself)
 }
 
 var c08Faults = map[string][]string{
@@ -51,6 +52,9 @@ func genC08(t *rapid.T) C08Case {
 	c.Ctx = rapid.SampledFrom([]string{"none", "none", "cancel", "deadline"}).Draw(t, "ctx")
 	if (c.Fault == "stall" || c.Fault == "stallposts") && c.Ctx == "none" {
 		c.Ctx = "deadline" // a stall is only required to end when the caller set a limit
+	}
+	if c.Client == "stdio" && (c.Fault == "kill9" || c.Fault == "exit0" || c.Fault == "exit3") {
+		c.Helper = rapid.Bool().Draw(t, "helper")
 	}
 	if c.Client != "stdio" && (c.Fault == "close" || c.Fault == "reset" || c.Fault == "refuse" || c.Fault == "http503" || c.Fault == "http500") && rapid.IntRange(0, 2).Draw(t, "retry") == 0 {
 		c.Retry = true
@@ -82,6 +86,9 @@ func c08Enumerated() []C08Case {
 					for _, p := range []int{1, 3} {
 						out = append(out, C08Case{Client: cl, Fault: f, CutPct: cut, Pending: p, Ctx: cx})
 					}
+					if cl == "stdio" && (f == "kill9" || f == "exit0") && cut == 50 {
+						out = append(out, C08Case{Client: cl, Fault: f, CutPct: cut, Pending: 2, Ctx: cx, Helper: true})
+					}
 				}
 			}
 		}
@@ -107,7 +114,7 @@ func execC08(c C08Case) *Failure {
 		CountExcluded("C08/post-sse-body-not-closed")
 		c.Client = "streamable-json"
 	}
-	where := fmt.Sprintf("%s fault=%s at %d%% pending=%d ctx=%s retry=%v", c.Client, c.Fault, c.CutPct, c.Pending, c.Ctx, c.Retry)
+	where := fmt.Sprintf("%s fault=%s at %d%% pending=%d ctx=%s retry=%v helper=%v", c.Client, c.Fault, c.CutPct, c.Pending, c.Ctx, c.Retry, c.Helper)
 	goBefore := LibGoroutines()
 	fdBefore := FDCount()
 	var armed atomic.Bool
@@ -136,7 +143,11 @@ func execC08(c C08Case) *Failure {
 			}
 			plan["request:tools/call"] = acts
 		}
-		cfg := mcp.StdioTransportConfig{ServerParams: ChildCommand(ChildSpec{Role: "fake", Log: filepath.Join(dir, "log"), Plan: plan}), Timeout: LongWait()}
+		cs := ChildSpec{Role: "fake", Log: filepath.Join(dir, "log"), Plan: plan}
+		if c.Helper {
+			cs.Helper = 15
+		}
+		cfg := mcp.StdioTransportConfig{ServerParams: ChildCommand(cs), Timeout: LongWait()}
 		sc, err := mcp.NewStdioClient(cfg, mcp.Implementation{Name: "c", Version: "1"}, mcp.WithStdioLogger(nopLogger{}))
 		if err != nil {
 			return Failf("C08/new-client", "%v", err)
